@@ -601,15 +601,12 @@ func execEqual(ctx context.Context, n *vlib.Node, c *Case) *vlib.Failure {
 			in = &sdcpb.TypedValue{Value: &sdcpb.TypedValue_StringVal{StringVal: lv[0]}}
 			return utils.TypedValueToYANGType(in, se)
 		}
+		// as a NETCONF device report arrives: one leaf-list value whose elements are the texts
 		var el []*sdcpb.TypedValue
 		for _, l := range lv {
-			e, err := utils.TypedValueToYANGType(&sdcpb.TypedValue{Value: &sdcpb.TypedValue_StringVal{StringVal: l}}, se)
-			if err != nil {
-				return nil, err
-			}
-			el = append(el, e)
+			el = append(el, &sdcpb.TypedValue{Value: &sdcpb.TypedValue_StringVal{StringVal: l}})
 		}
-		return &sdcpb.TypedValue{Value: &sdcpb.TypedValue_LeaflistVal{LeaflistVal: &sdcpb.ScalarArray{Element: el}}}, nil
+		return utils.TypedValueToYANGType(&sdcpb.TypedValue{Value: &sdcpb.TypedValue_LeaflistVal{LeaflistVal: &sdcpb.ScalarArray{Element: el}}}, se)
 	}
 	// the same, through the converter of the given input form
 	convForm := func(form string, vals []string, pad bool) (*sdcpb.TypedValue, error) {
